@@ -21,6 +21,12 @@ Proof.
   - apply negb_true_iff. apply N.eqb_neq. exact H2.
 Qed.
 
+(* a modulator's private push sends nothing but MOD_DIRECT frames *)
+Lemma direct_outs_only g ts pl x : In x (direct_outs g ts pl) -> exists c, x = ODirect c pl.
+Proof.
+  unfold direct_outs. rewrite in_flat_map. intros (u&_&H). apply in_map_iff in H. destruct H as (c&<-&_). exists c. reflexivity.
+Qed.
+
 (* every schedule: a property kept by every step holds after every run *)
 Lemma crun_inv cf (P : cstate -> Prop) :
   (forall s e, P s -> P (fst (cstep cf s e))) -> forall es s, P s -> P (fst (crun cf s es)).
@@ -123,7 +129,7 @@ Lemma cstep_bound {A} (pr : A -> list N) (fld : gst -> N -> A) cf M s e :
   (forall g g' u, objs g' = objs g -> idx g' = upd (idx g) u [] -> Pl pr M (fld g) -> Pl pr M (fld g')) ->
   Pl pr M (fld (cg s)) -> Pl pr M (fld (cg (fst (cstep cf s e)))).
 Proof.
-  intros Hseg Hsame Hwipe H. destruct e as [c u ex|c r|t ok hint|c hint|t]; unfold cstep; cbv zeta.
+  intros Hseg Hsame Hwipe H. destruct e as [c u ex|c r|t ok hint|c hint|t|ts pl]; unfold cstep; cbv zeta; [ | | | | |exact H].
   - destruct (cuser (cg s) c); [exact H|]. destruct (ex && _); [exact H|]. cbn [fst cg]. eapply Hsame; [| |exact H]; reflexivity.
   - destruct (cuser (cg s) c); exact H.
   - destruct (tlookup t (tasks s)) as [k|]; [|exact H].
@@ -217,7 +223,7 @@ Qed.
 
 Lemma reg_cstep cf s e : RegInv (cg s) -> RegInv (cg (fst (cstep cf s e))).
 Proof.
-  intro H. destruct e as [c u ex|c r|t ok hint|c hint|t]; unfold cstep; cbv zeta.
+  intro H. destruct e as [c u ex|c r|t ok hint|c hint|t|ts pl]; unfold cstep; cbv zeta; [ | | | | |exact H].
   - destruct (cuser (cg s) c) eqn:Hn; [exact H|]. destruct (ex && _); [exact H|]. cbn [fst cg].
     eapply RegInv_identify; [exact Hn| | |exact H]; reflexivity.
   - destruct (cuser (cg s) c); exact H.
@@ -302,7 +308,7 @@ End Tgt.
 
 Lemma tgt_cstep cf s e : Pall tgt_ok (objs (cg s)) -> Pall tgt_ok (objs (cg (fst (cstep cf s e)))).
 Proof.
-  intro H. destruct e as [c u ex|c r|t ok hint|c hint|t]; unfold cstep; cbv zeta.
+  intro H. destruct e as [c u ex|c r|t ok hint|c hint|t|ts pl]; unfold cstep; cbv zeta; [ | | | | |exact H].
   - destruct (cuser (cg s) c); [exact H|]. destruct (ex && _); exact H.
   - destruct (cuser (cg s) c); exact H.
   - destruct (tlookup t (tasks s)) as [k|]; [|exact H].
@@ -387,7 +393,8 @@ Theorem conc_message_confinement cf es e c ch from payload :
                   \/ (exists id, t_pc k = PBcastWait ch o payload id))).
 Proof.
   intros s H. pose proof (reg_reach cf es) as HR. fold s in HR.
-  destruct e as [c0 u ex|c0 r|t ok hint|c0 hint|t]; unfold cstep in H; cbv zeta in H.
+  destruct e as [c0 u ex|c0 r|t ok hint|c0 hint|t|ts pl]; unfold cstep in H; cbv zeta in H;
+    [ | | | | |exfalso; cbn [snd] in H; apply direct_outs_only in H; destruct H as [? H]; discriminate H].
   - destruct (cuser (cg s) c0); [destruct H|]. destruct (ex && _); cbn [snd In] in H; destruct H as [H|[]]; discriminate.
   - destruct (cuser (cg s) c0); destruct H.
   - destruct (tlookup t (tasks s)) as [k|] eqn:Hk; [|destruct H].
@@ -435,7 +442,8 @@ Theorem conc_event_confinement cf es e c kind ch n own :
   exists u, cuser (cg s) c = Some u /\ In c (reg (cg s) u).
 Proof.
   intros s H. pose proof (reg_reach cf es) as HR. fold s in HR.
-  destruct e as [c0 u ex|c0 r|t ok hint|c0 hint|t]; unfold cstep in H; cbv zeta in H.
+  destruct e as [c0 u ex|c0 r|t ok hint|c0 hint|t|ts pl]; unfold cstep in H; cbv zeta in H;
+    [ | | | | |exfalso; cbn [snd] in H; apply direct_outs_only in H; destruct H as [? H]; discriminate H].
   - destruct (cuser (cg s) c0); [destruct H|]. destruct (ex && _); cbn [snd In] in H; destruct H as [H|[]]; discriminate.
   - destruct (cuser (cg s) c0); destruct H.
   - destruct (tlookup t (tasks s)) as [k|] eqn:Hk; [|destruct H].
@@ -561,7 +569,8 @@ Theorem conc_acl_report_is_current cf es e c id l :
     l = acl_of (objs (cg s) o) ty /\ is_owner (objs (cg s) o) (t_me k) = true.
 Proof.
   intros s H.
-  destruct e as [c0 u ex|c0 r|t ok hint|c0 hint|t]; unfold cstep in H; cbv zeta in H.
+  destruct e as [c0 u ex|c0 r|t ok hint|c0 hint|t|ts pl]; unfold cstep in H; cbv zeta in H;
+    [ | | | | |exfalso; cbn [snd] in H; apply direct_outs_only in H; destruct H as [? H]; discriminate H].
   - destruct (cuser (cg s) c0); [destruct H|]. destruct (ex && _); cbn [snd In] in H; destruct H as [H|[]]; discriminate.
   - destruct (cuser (cg s) c0); destruct H.
   - destruct (tlookup t (tasks s)) as [k|] eqn:Hk; [|destruct H].
@@ -764,7 +773,7 @@ Definition SInv (s : cstate) : Prop :=
 
 Lemma sinv_cstep cf s e : SInv s -> SInv (fst (cstep cf s e)).
 Proof.
-  intros [Hf Ht]. unfold SInv. destruct e as [c u ex|c r|t ok hint|c hint|t]; unfold cstep; cbv zeta.
+  intros [Hf Ht]. unfold SInv. destruct e as [c u ex|c r|t ok hint|c hint|t|ts pl]; unfold cstep; cbv zeta; [ | | | | |split; assumption].
   - destruct (cuser (cg s) c); [split; assumption|]. destruct (ex && _); [split; assumption|]. cbn [fst]. split; [|exact Ht].
     cbn [cg]. eapply fr_same; [| | |exact Hf]; reflexivity.
   - destruct (cuser (cg s) c); [|split; assumption]. cbn [fst]. split; [exact Hf|]. cbn [cg tasks]. intros t k H.
